@@ -407,7 +407,7 @@ EFF = {0: 'abort', 1: 'proceed', 2: 'close', 3: 'register'}
 def farm_generate(ctx):
     return _generate(ctx, 'farm2coq.py', 'Gen/FarmGen.v', 'dawgie.pl.farm functions',
                      'Python/dawgie/pl/farm.py',
-                     ['Hand._reg', 'Hand._process', 'Hand.__init__', 'something_to_do', '_cluster_sort'])
+                     ['Hand._reg', 'Hand._process', 'Hand.__init__', 'something_to_do', '_cluster_sort', '_workers_sort'])
 
 
 def farm_units(ctx):
@@ -435,6 +435,14 @@ def farm_units(ctx):
                 if rng.random() < 0.7:
                     tab.append([j, t, rng.randint(0, 4)])
         units.append({'f': 'cluster_sort', 'msgs': msgs, 'insights': tab})
+    # idle-list order: every pool of <= 4 workers on 3 hosts, then random larger ones
+    for k in range(0, 5):
+        for hs in itertools.product((0, 1, 2), repeat=k):
+            units.append({'f': 'workers_sort', 'workers': [[i, h] for i, h in enumerate(hs)]})
+    for _ in range(ctx.n(60, 600)):
+        n = rng.randint(5, 9)
+        ids = rng.sample(range(20), n)
+        units.append({'f': 'workers_sort', 'workers': [[i, rng.choice([0, 1, 2, 5, 11])] for i in ids]})
     return units
 
 
@@ -454,6 +462,8 @@ def _farm_expr(u):
         return 'map effname (FarmGen.hand_status %s %s)' % (b(u['rev_ok']), b(u['active']))
     if f == 'something_to_do':
         return 'FarmGen.something_to_do %s %s' % (b(u['crew']), b(u['active']))
+    if f == 'workers_sort':
+        return 'FarmGen.workers_sort [%s]' % ';'.join('(%d,%d)' % tuple(w) for w in u['workers'])
     tab = '[' + ';'.join('(%d,%d,(%d)%%Z)' % tuple(e) for e in u['insights']) + ']'
     ms = '[' + ';'.join('mk %d %d (%d)%%Z' % tuple(m) for m in u['msgs']) + ']'
     return 'csort %s %s' % (tab, ms)
@@ -464,6 +474,8 @@ def _farm_canon_model(u, v):
         return ('ok', [EFF[x] for x in v])
     if u['f'] == 'something_to_do':
         return ('ok', v)
+    if u['f'] == 'workers_sort':
+        return ('exc', 'IndexError') if v is None else ('ok', [list(x) for x in v[1]])
     return ('ok', [list(x) for x in v])
 
 
@@ -497,6 +509,10 @@ def _farm_oracle(units, impl):
             if o is not u['active']:
                 hits.append(('dispatch-guard', {}, 'something_to_do(active=%s, crew=%s, agency=%s) = %r'
                              % (u['active'], u['crew'], u['agency'], o), u))
+        elif u['f'] == 'workers_sort':
+            if sorted(map(tuple, o)) != sorted(map(tuple, u['workers'])):
+                hits.append(('idle-list-not-preserved', {}, '_workers_sort(%r) = %r: not a permutation'
+                             % (u['workers'], o), u))
         elif u['f'] == 'cluster_sort' and not u['insights']:
             want = sorted(u['msgs'], key=lambda m: m[2])
             if o != want:
@@ -540,7 +556,9 @@ def farm_validate(ctx, g, pid='C11'):
                    'of Model/Sched.v', 'the python functions still satisfy the oracle on %d units' % len(units),
                    {'source': 'proof', 'theorem': 'Proofs/FarmGenEq.v'})
     nt = [('farm', repr(u)) for u in units
-          if u['f'] != 'cluster_sort' or len({m[2] for m in u['msgs']}) < len(u['msgs'])]
+          if (u['f'] == 'workers_sort' and len({w[1] for w in u['workers']}) > 1)
+          or (u['f'] == 'cluster_sort' and len({m[2] for m in u['msgs']}) < len(u['msgs']))
+          or u['f'] not in ('workers_sort', 'cluster_sort')]
     ctx.count(evaluations=len(units), nontrivial_keys=nt)
     ctx.note('source_tie_farm', {'units': len(units), 'translator_ok': g['ok'],
                                  'generated_vs_python_mismatch': bad})
